@@ -37,6 +37,7 @@ PLAN = {
         ("NewCases.cfg", "case", None),
         ("InputFileQuick.cfg", "graph", None),
         ("InputFilePrimed.cfg", "graph", None),
+        ("InputFileMulti.cfg", "graph", None),
         ("OneOfQuick.cfg", "graph", None),
         ("ParamQuick.cfg", "graph", None),
         ("FormQuick.cfg", "graph", None),
@@ -51,6 +52,7 @@ PLAN = {
         ("InputFileDeep.cfg", "graph", None),
         ("InputFilePrimed.cfg", "graph", None),
         ("InputFilePrimedDeep.cfg", "graph", None),
+        ("InputFileMulti.cfg", "graph", None),
         ("OneOfDeep.cfg", "graph", None),
         ("ParamThorough.cfg", "graph", None),
         ("FormDeep.cfg", "graph", None),
@@ -61,6 +63,7 @@ NEGATIVE = [
     ("NegStaleRuleTable.cfg", "VerdictIsAcceptsStrict"),
     ("NegStrIdSkipsMembership.cfg", "VerdictIsAcceptsStrict"),
     ("NegPgTypeNeedsEntity.cfg", "VerdictIsAcceptsStrict"),
+    ("NegMultiItemsUnchecked.cfg", "VerdictIsAcceptsStrict"),
     ("NegOneOfPopped.cfg", "VerdictIsAcceptsStrict"),
     ("NegPoolKeepsErrors.cfg", "VerdictIsAcceptsStrict"),
     ("NegPoolKeepsErrorsUIJson.cfg", "VerdictIsAcceptsStrict"),
@@ -230,7 +233,9 @@ def _replay(item):
 
 
 def _primed(item):
-    return any(lab[0] == "Prime" for lab in item["labels"])
+    """Runs in the second generation of workers: sequences that start with Prime, and every item whose own
+    form is multiSelect (building it is itself a load of a multiSelect ui.json)."""
+    return any(lab[0] == "Prime" for lab in item["labels"]) or item["cfg"].get("kind") == "objectmulti"
 
 
 # ---------------------------------------------------------------- run
@@ -359,7 +364,7 @@ def run(tier, seed):
                     "data and ui_json deep-equal to their state before the call",
         },
         "assumptions": [
-            "bounds: one parameter under test per ui.json; 11 classic form kinds, 14 parameter kinds, value tokens of "
+            "bounds: one parameter under test per ui.json; 13 classic form kinds (incl. a data form under a group and a multiSelect object form), 14 parameter kinds, value tokens of "
             "spec/uijson/UiJsonValidate.tla; call sequences <= 3 (quick) / <= 4-5 (thorough) on one object",
             "switch space: group x groupOptional x group enabled x dependency x dependencyType x dependency state x "
             "dependency kind (boolean / optional form) x the checkbox's own enabled member x optional x enabled, canonical "
